@@ -65,8 +65,259 @@ fn swift_validate(p: &ParsedSwiftMessage) -> (bool, usize) {
     (r.is_valid, r.errors.len())
 }
 
+/// C16 workload on one block-4 text: tokenise, split (three configs), repetitive sequences,
+/// drain every key through the sequential finder with a fresh tracker. The result is rendered
+/// in input (stamp) order, so it must not depend on hash order, on the thread, or on what other
+/// threads are doing at the same time.
+fn c16_workload(b4: &str) -> String {
+    use swift_mt_message::parser::{
+        find_field_with_variant_sequential_constrained, get_sequence_config, parse_block4_fields, parse_repetitive_sequence,
+        split_into_sequences, FieldConsumptionTracker, SequenceConfig,
+    };
+    let mut out = String::new();
+    let tt = std::time::Instant::now();
+    let prof = std::env::var("MTMIRI_PROF").is_ok();
+    let map = match parse_block4_fields(b4) {
+        Ok(m) => m,
+        Err(e) => return format!("tokeniser error {e}"),
+    };
+    let flat = |m: &std::collections::HashMap<String, Vec<(String, usize)>>| {
+        let mut v: Vec<(usize, String, String)> = m.iter().flat_map(|(k, vs)| vs.iter().map(move |(c, p)| (*p, k.clone(), c.clone()))).collect();
+        v.sort();
+        v
+    };
+    if prof { println!("PROF tokenise {:?}", tt.elapsed()); }
+    let all = flat(&map);
+    for (p, k, c) in &all {
+        // no `{:?}` on strings: char-by-char escaping is what the interpreter is slowest at
+        out.push_str("field ");
+        out.push_str(&p.to_string());
+        out.push(' ');
+        out.push_str(k);
+        out.push(' ');
+        out.push_str(c);
+        out.push('\n');
+    }
+    let cfgs = [
+        get_sequence_config("MT101"),
+        get_sequence_config("MT104"),
+        SequenceConfig { sequence_b_marker: "61".into(), sequence_c_fields: vec!["62".into(), "64".into(), "65".into(), "86".into()], has_sequence_c: true },
+    ];
+    for cfg in &cfgs {
+        match split_into_sequences(&map, cfg) {
+            Ok(ps) => out.push_str(&format!(
+                "split {} A{:?} B{:?} C{:?}\n",
+                cfg.sequence_b_marker,
+                flat(&ps.sequence_a).iter().map(|f| f.0).collect::<Vec<_>>(),
+                flat(&ps.sequence_b).iter().map(|f| f.0).collect::<Vec<_>>(),
+                flat(&ps.sequence_c).iter().map(|f| f.0).collect::<Vec<_>>()
+            )),
+            Err(e) => out.push_str(&format!("split error {e}\n")),
+        }
+    }
+    if prof { println!("PROF splits done {:?}", tt.elapsed()); }
+    for marker in ["21", "61", "20"] {
+        match parse_repetitive_sequence::<swift_mt_message::messages::MT101>(&map, marker) {
+            Ok(items) => out.push_str(&format!("items {marker} {:?}\n", items.iter().map(|i| flat(i).iter().map(|f| f.0).collect::<Vec<_>>()).collect::<Vec<_>>())),
+            Err(e) => out.push_str(&format!("items error {e}\n")),
+        }
+    }
+    if prof { println!("PROF items done {:?}", tt.elapsed()); }
+    let mut keys: Vec<String> = map.keys().cloned().collect();
+    keys.sort();
+    let mut tracker = FieldConsumptionTracker::new();
+    let mut handed = 0;
+    for k in &keys {
+        let base: String = k.chars().take_while(|c| c.is_ascii_digit()).collect();
+        // by base tag first (variants in input order), then whatever is left under the exact key
+        for probe in [base.as_str(), k.as_str()] {
+            while let Some((_, var, pos)) = find_field_with_variant_sequential_constrained(&map, probe, &mut tracker, None) {
+                out.push_str("take ");
+                out.push_str(probe);
+                out.push(' ');
+                out.push_str(var.as_deref().unwrap_or("-"));
+                out.push(' ');
+                out.push_str(&pos.to_string());
+                out.push('\n');
+                handed += 1;
+                if handed > all.len() + 4 {
+                    break;
+                }
+            }
+        }
+    }
+    if prof { println!("PROF drain done {:?}", tt.elapsed()); }
+    out.push_str(&format!("handed {handed} of {}\n", all.len()));
+    out
+}
+
+fn run_c16(idx: usize, rounds: usize) {
+    let n = SUBJECTS.len();
+    // the interpreter needs seconds per kilobyte of block 4: work on the short subjects
+    let mut by_len: Vec<usize> = (0..n).collect();
+    by_len.sort_by_key(|i| SUBJECTS[*i].2.len());
+    let small = &by_len[..n.min(10)];
+    let (ia, ib) = (small[idx % small.len()], small[(idx + 3) % small.len()]);
+    // block 4 by plain slicing (the envelope scanner is not what this stage is about, and costs the interpreter seconds)
+    let b4 = |i: usize| {
+        let t = SUBJECTS[i % n].2;
+        let a = t.find("{4:").map(|p| p + 3).unwrap_or(0);
+        let b = t[a..].find("\n-}").map(|p| a + p).unwrap_or(t.len());
+        t[a..b].to_string()
+    };
+    let (t0, t1) = (b4(ia), b4(ib));
+    let prof = std::env::var("MTMIRI_PROF").is_ok();
+    let i0 = std::time::Instant::now();
+    let (r0, r1) = (Arc::new(c16_workload(&t0)), Arc::new(c16_workload(&t1)));
+    if prof {
+        println!("PROF two sequential workloads: {:?} (texts {} and {} bytes, results {} and {} bytes)", i0.elapsed(), t0.len(), t1.len(), r0.len(), r1.len());
+    }
+    let mut bad: Vec<String> = vec![];
+    for (name, r) in [("a", &r0), ("b", &r1)] {
+        if let Some(l) = r.lines().last() {
+            let nums: Vec<&str> = l.split_whitespace().collect();
+            if nums.len() == 4 && nums[1] != nums[3] {
+                bad.push(format!("T3 (already without any overlap) text {name}: {l}"));
+            }
+        }
+    }
+    let mut hs = vec![];
+    for (who, text, reference) in [("A", t0.clone(), r0.clone()), ("B", t1.clone(), r1.clone()), ("C", t0.clone(), r0.clone())] {
+        hs.push(std::thread::spawn(move || {
+            let mut bad = vec![];
+            for r in 0..rounds {
+                let got = c16_workload(&text);
+                if got != *reference {
+                    let at = got.lines().zip(reference.lines()).position(|(x, y)| x != y).unwrap_or(0);
+                    bad.push(format!("T5 consumer {who} round {r}: result differs from the non-overlapping execution at line {at}: `{}` vs `{}`", got.lines().nth(at).unwrap_or("").chars().take(120).collect::<String>(), reference.lines().nth(at).unwrap_or("").chars().take(120).collect::<String>()));
+                }
+            }
+            bad
+        }));
+    }
+    for h in hs {
+        match h.join() {
+            Ok(b) => bad.extend(b),
+            Err(_) => println!("MICRO-NOTE subject={idx} a consumer thread panicked (C07 territory, not a C16 verdict)"),
+        }
+    }
+    let mt = format!("{}+{}", SUBJECTS[ia].0, SUBJECTS[ib].0);
+    if bad.is_empty() {
+        println!("MICRO-OK subject={idx} mt={mt} fields={} rounds={rounds} consumers=3", r0.lines().last().unwrap_or(""));
+    } else {
+        for b in &bad {
+            println!("MICRO-VIOLATION subject={idx} mt={mt} {b}");
+        }
+        std::process::exit(1);
+    }
+}
+
+fn block_on<F: std::future::Future>(f: F) -> F::Output {
+    use std::task::{Context, Poll, Wake, Waker};
+    struct Noop;
+    impl Wake for Noop {
+        fn wake(self: Arc<Self>) {}
+    }
+    let w = Waker::from(Arc::new(Noop));
+    let mut cx = Context::from_waker(&w);
+    let mut f = std::pin::pin!(f);
+    loop {
+        if let Poll::Ready(v) = f.as_mut().poll(&mut cx) {
+            return v;
+        }
+    }
+}
+
+/// the `validate_mt` plugin handler on an MT text: (valid, errors, message_type)
+fn plugin_validate(text: &str) -> Result<(bool, Vec<String>), String> {
+    use dataflow_rs::engine::{AsyncFunctionHandler, FunctionConfig, Message};
+    let mut msg = Message::from_value(&serde_json::json!({}));
+    msg.data_mut()["mt"] = serde_json::Value::String(text.to_string());
+    msg.invalidate_context_cache();
+    let cfg = FunctionConfig::Custom { name: "validate_mt".into(), input: serde_json::json!({"source": "mt", "target": "vr"}) };
+    let h = swift_mt_message::plugin::Validate;
+    block_on(h.execute(&mut msg, &cfg, Arc::new(datalogic_rs::DataLogic::new()))).map_err(|e| format!("{e:?}"))?;
+    let vr = &msg.data()["vr"];
+    Ok((vr["valid"].as_bool().unwrap_or(false), vr["errors"].as_array().map(|a| a.iter().map(|e| e.as_str().unwrap_or("").to_string()).collect()).unwrap_or_default()))
+}
+
+/// C15 micro mode: the plugin's verdict on a VALID published message must not depend on what other
+/// threads are validating at the same moment.
+fn run_c15(idx: usize, rounds: usize) {
+    let valid = subjects::VALID;
+    let n = valid.len();
+    let (mt, good) = valid[idx % n];
+    // noise: the recorded subjects with the most findings (the longer a validation spends producing
+    // findings, the wider the window in which state shared between calls is exposed)
+    let mut by_errs: Vec<usize> = (0..SUBJECTS.len()).collect();
+    by_errs.sort_by_key(|i| std::cmp::Reverse(SUBJECTS[*i].1.split('+').count()));
+    let bad_text = SUBJECTS[by_errs[idx % 4]].2;
+    let reference = plugin_validate(good);
+    let mut bad: Vec<String> = vec![];
+    match &reference {
+        Ok((true, e)) if e.is_empty() => {}
+        other => {
+            println!("MICRO-SKIP subject={idx} mt={mt} the recorded valid message is not valid on this tree without any overlap: {other:?}");
+            return;
+        }
+    }
+    let mut hs = vec![];
+    for who in 0..2 {
+        let g = good.to_string();
+        hs.push(std::thread::spawn(move || {
+            let mut bad = vec![];
+            for r in 0..rounds {
+                match plugin_validate(&g) {
+                    Ok((true, e)) if e.is_empty() => {}
+                    Ok((v, e)) => bad.push(format!("O2 validate_mt #{r} (caller {who}) on a valid published message overlapping other validations returned valid={v} errors={:?}", e.iter().take(2).collect::<Vec<_>>())),
+                    Err(e) => bad.push(format!("O1 validate_mt #{r} (caller {who}) failed: {e}")),
+                }
+            }
+            bad
+        }));
+    }
+    {
+        let b = bad_text.to_string();
+        hs.push(std::thread::spawn(move || {
+            for _ in 0..rounds.div_ceil(3) {
+                let _ = plugin_validate(&b);
+            }
+            vec![]
+        }));
+    }
+    for h in hs {
+        match h.join() {
+            Ok(b) => bad.extend(b),
+            Err(_) => println!("MICRO-NOTE subject={idx} a caller thread panicked"),
+        }
+    }
+    if bad.is_empty() {
+        println!("MICRO-OK subject={idx} mt={mt} valid message validated {} times while a rule-violating one was being validated rounds={rounds} callers=3", 2 * rounds);
+    } else {
+        for b in &bad {
+            println!("MICRO-VIOLATION subject={idx} mt={mt} {b}");
+        }
+        std::process::exit(1);
+    }
+}
+
 fn main() {
-    let args: Vec<String> = std::env::args().collect();
+    let mut args: Vec<String> = std::env::args().collect();
+    if args.get(1).map(|s| s.as_str()) == Some("c15") {
+        let idx: usize = args.get(2).and_then(|s| s.parse().ok()).unwrap_or(0);
+        let rounds: usize = args.get(3).and_then(|s| s.parse().ok()).unwrap_or(1);
+        run_c15(idx, rounds);
+        return;
+    }
+    if args.get(1).map(|s| s.as_str()) == Some("c16") {
+        let idx: usize = args.get(2).and_then(|s| s.parse().ok()).unwrap_or(0);
+        let rounds: usize = args.get(3).and_then(|s| s.parse().ok()).unwrap_or(2);
+        run_c16(idx, rounds);
+        return;
+    }
+    if args.get(1).map(|s| s.as_str()) == Some("c13") {
+        args.remove(1);
+    }
     let subjects = SUBJECTS;
     if args.get(1).map(|s| s.as_str()) == Some("count") {
         println!("{}", subjects.len());
